@@ -1,7 +1,7 @@
 """Configuration of ./check C01 (see pylib/props.py)."""
 CFG = dict(
         coq=["props/C01.vo"],
-        tie=["gen/Tie_C01.vo", "gen/Tie_Code_Slices.vo", "gen/Tie_Code_KeyIndices.vo"],
+        tie=["gen/Tie_C01.vo", "gen/Tie_Code_Slices.vo", "gen/Tie_Code_KeyIndices.vo", "gen/Tie_Code_StrListEncode.vo", "gen/Tie_Code_Cols.vo"],
         model_vo=["model/Sorter.vo", "model/SorterSpec.vo", "model/Ingest.vo", "model/IngestSpec.vo"],
         extract="Ex_C01",
         level_text="Theorem C01_lossless: for every header, every key choice among the columns (subset, order, none), all rows "
